@@ -415,3 +415,142 @@ def moves_from_lvalue_operands(facts, drivers=None):
         walk(fn["body"], v2)
     out.append(ob("lint.move-from-lvalue", "all:lvalue-instantiations", "", "discharged", "%d function instantiations with non-const lvalue-reference parameters scanned" % n, ""))
     return out
+
+
+def _blocks(n, acc):
+    if isinstance(n, dict):
+        if n.get("k") == "Block":
+            acc.append(n)
+        for v in n.values():
+            _blocks(v, acc)
+    elif isinstance(n, list):
+        for v in n:
+            _blocks(v, acc)
+    return acc
+
+
+RELEASE_NAMES = ("deallocate", "destroy", "make_deleter", "get_deleter")
+
+
+def conditional_release_before_overwrite(facts, fams=None):
+    """`if (G) { release(field_); } ... field_ = replacement;` in one block: the object the owning pointer field refers to is released
+    only under G, but it is overwritten unconditionally.  G has to be the existence test of that very object (`field_ != nullptr` /
+    `field_`); any other condition (for example 'a replacement was built') leaks the old object on the paths where G is false."""
+    from astu import stmts_of, strip_all, is_this_field, field_name
+    fns = functions_by(facts)
+    out = []
+    n = 0
+    for pat, fn in sorted(fns.items()):
+        if fams and not any(pat.startswith(f) for f in fams):
+            continue
+        if fn.get("body") is None:
+            continue
+        idx = 0
+        for b in _blocks(fn["body"], []):
+            st = stmts_of(b)
+            for i, s in enumerate(st):
+                if s.get("k") != "Expr":
+                    continue
+                e = strip(s["e"])
+                if not (e.get("k") == "Assign" and e.get("op") == "=" and is_this_field(e["l"]) and (strip(e["l"]).get("t") or "").rstrip().endswith("*")):
+                    continue
+                fld = field_name(e["l"])
+                if strip_all(e["r"]).get("k") == "Null" or txt(e["r"]) == "nullptr":
+                    continue  # clearing the field after a release is not an overwrite with a new object
+                for prev in st[:i]:
+                    rel = []
+                    walk(prev, lambda x: rel.append(x) if x.get("k") in ("Call", "OpCall") and any(r in txt(x) for r in RELEASE_NAMES) and any(is_this_field(y, (fld,)) for y in _all(x)) else None)
+                    if not rel:
+                        continue
+                    n += 1
+                    key = "%s:%s-release-guard#%d" % (short(fn["patq"]), fld, idx)
+                    idx += 1
+                    if prev.get("k") == "If":
+                        c = txt(prev["c"]).replace(" ", "")
+                        ok = c in ("(%s!=nullptr)" % fld, fld, "(nullptr!=%s)" % fld) and prev.get("e") is None
+                        if ok:
+                            out.append(ob("lint.release-guard", key, prev["loc"], "discharged", "old object released iff it exists, then the field is overwritten", fn["qname"]))
+                        else:
+                            out.append(ob("lint.release-guard", key, prev["loc"], "violated", "`%s` is overwritten unconditionally at %s, but the object it refers to is released only under `%s`: on the other paths the old object is never returned to the allocator (leak)" % (fld, e["loc"].split("/")[-1], txt(prev["c"])[:60]), fn["qname"]))
+                    else:
+                        out.append(ob("lint.release-guard", key, prev["loc"], "discharged", "old object released unconditionally before the field is overwritten", fn["qname"]))
+                    break
+    out.append(ob("lint.release-guard", "all:overwrites-scanned", "", "discharged", "%d release-then-overwrite sites of owning pointer fields scanned" % n, ""))
+    return out
+
+
+def _all(n):
+    acc = []
+    walk(n, lambda x: acc.append(x))
+    return acc
+
+
+def invalidated_pointers(facts, fams=None):
+    """`auto p = obj.begin()` (or end / data / get) followed by a call of a non-const member function of the same object and then
+    a use of p: the call may reallocate the storage p points into (ensure_space, grow, resize, push_back ...), so p has to be
+    obtained after it.  Reported only when the intervening callee can (transitively) assign or swap a pointer field or call a
+    growing container operation - i.e. can actually move the storage."""
+    from astu import stmts_of, strip_all, local_decls
+    fns = functions_by(facts)
+    by_pat = {f["pat"]: f for f in fns.values()}
+    memo = {}
+
+    def can_move_storage(pat_, depth=0):
+        if pat_ in memo:
+            return memo[pat_]
+        memo[pat_] = False
+        f = by_pat.get(pat_)
+        if f is None or f.get("body") is None or depth > 3:
+            return False
+        hit = [False]
+
+        def v(x):
+            if x.get("k") == "Assign" and x.get("op") == "=" and (strip_all(x["l"]).get("t") or "").rstrip().endswith("*") and strip_all(x["l"]).get("k") == "Member":
+                hit[0] = True
+            if x.get("k") == "Call" and x.get("cname") in ("swap", "resize", "reserve", "push_back", "emplace_back", "insert", "shrink_to_fit"):
+                hit[0] = True
+            if x.get("k") == "Call" and x.get("cpat") and x.get("cpat") != pat_ and can_move_storage(x["cpat"], depth + 1):
+                hit[0] = True
+        walk(f["body"], v)
+        memo[pat_] = hit[0]
+        return hit[0]
+    out = []
+    n = 0
+    for pat, fn in sorted(fns.items()):
+        if fams and not any(pat.startswith(f) for f in fams):
+            continue
+        if fn.get("body") is None:
+            continue
+        idx = 0
+        for b in _blocks(fn["body"], []):
+            st = stmts_of(b)
+            ptrs = {}  # decl id -> (object text, name, stale info)
+            for s in st:
+                # uses of stale pointers
+                stale_used = []
+                walk(s, lambda x: stale_used.append(x) if x.get("k") == "Ref" and x.get("d") in ptrs and ptrs[x["d"]][2] else None)
+                if stale_used:
+                    d = stale_used[0]["d"]
+                    obj, name, info = ptrs[d]
+                    out.append(ob("lint.invalidated-pointer", "%s:invalidated-pointer#%d" % (short(fn["patq"]), idx), stale_used[0]["loc"], "violated", "`%s` was obtained from `%s` before %s, which can reallocate that object's storage; using it afterwards reads / writes released memory - the pointer has to be taken after the call" % (name, obj, info), fn["qname"]))
+                    idx += 1
+                    ptrs[d] = (obj, name, None)
+                # invalidating calls
+                if ptrs:
+                    def cv(x):
+                        if x.get("k") == "Call" and x.get("member") and x.get("obj") is not None and not x.get("cconst", False):
+                            o = txt(x["obj"]).replace(" ", "")
+                            for d, (obj, name, info) in list(ptrs.items()):
+                                if obj == o and info is None and x.get("cname") not in ("begin", "end", "data", "get") and (can_move_storage(x.get("cpat")) or x.get("cname") in ("resize", "reserve", "push_back", "emplace_back", "insert", "erase", "clear")):
+                                    ptrs[d] = (obj, name, "%s.%s(...) at %s" % (obj, x.get("cname"), x["loc"].split("/")[-1]))
+                    walk(s, cv)
+                if s.get("k") == "Decl":
+                    for v in s.get("vars", []):
+                        ini = strip_all(v.get("init") or {})
+                        src = []
+                        walk(ini, lambda x: src.append(x) if x.get("k") == "Call" and x.get("cname") in ("begin", "end", "data", "get") and x.get("obj") is not None else None)
+                        if src and ((v.get("t") or "").rstrip().endswith("*") or "iterator" in (v.get("t") or "")):
+                            ptrs[v["d"]] = (txt(src[0]["obj"]).replace(" ", ""), v["n"], None)
+                            n += 1
+    out.append(ob("lint.invalidated-pointer", "all:pointers-scanned", "", "discharged", "%d local pointers / iterators into objects scanned" % n, ""))
+    return out
